@@ -16,7 +16,9 @@ package main
 
 import (
 	"fmt"
+	"os"
 	"strings"
+	"time"
 
 	"verif/harness/internal/hx"
 	"verif/harness/internal/prng"
@@ -390,6 +392,12 @@ func main() {
 		r := prng.ForCase(f.Seed, k)
 		o.Case(k)
 		c := &kase{k: k, o: o}
+		// a step that never returns (deadlock in the real queue) must not hang the check
+		wd := time.AfterFunc(60*time.Second, func() {
+			o.Fail("hang", k, "a step of the real queue did not return within 60 s; schedule so far: %s", strings.Join(c.trace, "; "))
+			o.Close()
+			os.Exit(0)
+		})
 		if k < len(corpus) {
 			corpus[k](c)
 			o.Count("corpus")
@@ -398,6 +406,7 @@ func main() {
 		}
 		c.finalChecks()
 		c.r.shutdown()
+		wd.Stop()
 		o.Seen(strings.Join(c.trace, ";"))
 		if k >= len(corpus) && k < len(corpus)+3 {
 			o.Sample(strings.Join(c.trace, "; "))
